@@ -1017,20 +1017,24 @@ def _for_loops(m):
 
 def _check_loop_call(ctx, m, iter_name, callee, argnames, goal, node=None, loops=None):
     loops = loops if loops is not None else _for_loops(m)
-    okk = False
-    why = "no `for key in %s: self.%s(...)`" % (iter_name, callee)
+    okk = None
+    why = "no `for key in %s: self.%s(...)` found: delegation shape not understood" % (iter_name, callee)
     for lp in loops:
+        calls = [c for c in calls_in(lp) if dotted(c.func) == "self." + callee]
         if isinstance(lp.iter, ast.Name) and lp.iter.id == iter_name and isinstance(lp.target, ast.Name):
             body = [s for s in lp.body if not (isinstance(s, ast.Expr) and isinstance(s.value, ast.Constant))]
-            if len(body) == 1 and isinstance(body[0], ast.Expr) and isinstance(body[0].value, ast.Call):
+            if len(body) == 1 and isinstance(body[0], ast.Expr) and isinstance(body[0].value, ast.Call) and dotted(body[0].value.func) == "self." + callee:
                 c = body[0].value
                 exp = [lp.target.id] + argnames[1:]
-                if dotted(c.func) == "self." + callee and [unparse(a) for a in c.args] == exp and not c.keywords and not lp.orelse:
+                if [unparse(a) for a in c.args] == exp and not c.keywords and not lp.orelse:
                     okk = True
                 else:
-                    why = "loop body is `%s`" % unparse(c, 60)
-            else:
-                why = "loop body has %d statements" % len(body)
+                    okk, why = False, "each element is passed on as `%s`, not self.%s(%s)" % (unparse(c, 60), callee, ", ".join(exp))
+            elif len(calls) != 1:
+                okk, why = False, "the loop over `%s` calls self.%s %d times per element" % (iter_name, callee, len(calls))
+        elif calls and okk is None:
+            # the single-item method is called in a loop over something other than the argument itself
+            okk, why = False, "elements are taken from `%s`, not from `%s` in order" % (unparse(lp.iter, 40), iter_name)
     ctx.ob("deleg", m, node or (loops[0] if loops else m.node), "for key in %s: self.%s(%s)" % (iter_name, callee, ", ".join(argnames)), goal, okk, "" if okk else why)
 
 
@@ -1153,8 +1157,22 @@ def rule_window(ctx):
 
 
 def rule_value_fwd(ctx, classes=SKETCH_CLASSES):
-    """add(key, value): key and (capped) value reach the kernel's key/value parameters; HLL ignores value."""
+    """add(key, value): key and (capped) value reach the kernel's key/value parameters; HLL ignores value.
+    add_ngram(key, n): the whole key and n itself reach the n-gram kernel."""
     F = facts_of(ctx)
+    for cls in F.classes(classes):
+        mn = cls.methods.get("add_ngram")
+        if mn is not None:
+            wn = F.walk(mn)
+            for c in [e for e in wn.events if e.kind == "call" and e.callee is not None and e.callee.is_kernel]:
+                am = dict(zip(c.callee.params, c.args))
+                kv = next((a for a in c.args if isinstance(a, Bytes)), None)
+                okk = isinstance(kv, Bytes) and kv.root == "key" and kv.start == Lin.const(0) and kv.stop is None
+                ctx.ob("value-fwd", mn, c.node, "%s(key=key)" % c.callee.name, "the whole key is passed to the n-gram kernel", okk)
+                nv = am.get("ngram")
+                okk = isinstance(nv, Num) and nv.lin == Lin.term(("param", "ngram"))
+                ctx.ob("value-fwd", mn, c.node, "%s(ngram=%s)" % (c.callee.name, show_lin(nv.lin) if isinstance(nv, Num) else nv),
+                       "the n-gram size reaches the kernel unchanged", okk)
     for cls in F.classes(classes):
         m = cls.methods.get("add")
         if m is None:
@@ -1186,6 +1204,14 @@ def rule_value_fwd(ctx, classes=SKETCH_CLASSES):
                     if t is not None and t[0] == "min":
                         kind, a, b = w.P.minmax[t]
                         capped = Lin.term(("param", "value")) in (a, b)
+                if isinstance(vv, Num) and not (exact or capped):
+                    # semantic form: vv == min(value, ceiling)
+                    from .rules_arith import FactBox
+                    ceil_t = Lin.term(w.named(("attr", "self", "uint_maxval")))
+                    val_t = Lin.term(("param", "value"))
+                    box = FactBox(c.facts)
+                    g = w.minmax("min", val_t, ceil_t, box)
+                    capped = bool(w.P.prove_le0(vv.lin - g, box.facts) and w.P.prove_le0(g - vv.lin, box.facts))
                 ctx.ob("value-fwd", m, c.node, "%s(value=%s)" % (c.callee.name, show_lin(vv.lin) if isinstance(vv, Num) else vv),
                        "the multiplicity (or its cap at the ceiling) reaches the kernel", exact or capped)
 
@@ -1400,3 +1426,74 @@ def rule_observers(ctx, classes=SKETCH_CLASSES):
                 and const_int(rets[0].value.slice) == slot
             ctx.ob("observers", m, rets[0] if rets else m.node, "%s returns n_added_records[%d]" % (m.qualname, slot),
                    "%s() reads bookkeeping slot %d" % (name, slot), okk)
+
+
+# ---------------------------------------------------------------------------
+# C20 writer side: the archive is produced by one np.savez call and never touched again
+# ---------------------------------------------------------------------------
+
+PURE_PATH_CALLS = {"Path", "pathlib.Path", "str", "os.fspath", "os.path.abspath", "os.path.join", "os.path.expanduser", "repr", "len", "type", "isinstance"}
+PURE_PATH_METHODS = {"with_name", "with_suffix", "resolve", "absolute", "expanduser", "endswith", "startswith", "as_posix", "joinpath"}
+FILE_MUTATORS = ("zipfile.ZipFile", "ZipFile", "open", "io.open", "os.rename", "os.replace", "os.truncate", "shutil.", "np.save", "numpy.save",
+                 "os.remove", "os.unlink", "tempfile.")
+
+
+def rule_writer_api(ctx, classes=SKETCH_CLASSES):
+    F = facts_of(ctx)
+    seen = set()
+    for cls in F.classes(classes):
+        save = cls.resolve("save")
+        if save is None or save.key in seen:
+            continue
+        seen.add(save.key)
+        if len(save.params) < 2:
+            ctx.ob("writer-api", save, save.node, save.qualname, "save(filename) readable", None)
+            continue
+        taint = {save.params[1]}
+        changed = True
+        while changed:
+            changed = False
+            for n in walk_no_nested(save.node):
+                tg = None
+                if isinstance(n, ast.Assign):
+                    tg, val = n.targets, n.value
+                elif isinstance(n, ast.With):
+                    for it in n.items:
+                        if it.optional_vars is not None and {x.id for x in ast.walk(it.context_expr) if isinstance(x, ast.Name)} & taint:
+                            for x in ast.walk(it.optional_vars):
+                                if isinstance(x, ast.Name) and x.id not in taint:
+                                    taint.add(x.id)
+                                    changed = True
+                    continue
+                if tg and {x.id for x in ast.walk(val) if isinstance(x, ast.Name)} & taint:
+                    for t in tg:
+                        for x in ast.walk(t):
+                            if isinstance(x, ast.Name) and x.id not in taint:
+                                taint.add(x.id)
+                                changed = True
+        writes = []
+        others = []
+        for n in walk_no_nested(save.node):
+            if not isinstance(n, ast.Call):
+                continue
+            d = dotted(n.func) or ""
+            argn = {x.id for a in list(n.args) + [k.value for k in n.keywords] for x in ast.walk(a) if isinstance(x, ast.Name)}
+            recv = {x.id for x in ast.walk(n.func) if isinstance(x, ast.Name)} if isinstance(n.func, ast.Attribute) else set()
+            if not ((argn | recv) & taint):
+                continue
+            if d in ("np.savez", "numpy.savez", "np.savez_compressed", "numpy.savez_compressed"):
+                writes.append(n)
+            elif d in PURE_PATH_CALLS or (isinstance(n.func, ast.Attribute) and n.func.attr in PURE_PATH_METHODS):
+                continue
+            else:
+                others.append((n, d))
+        okk = len(writes) == 1 and writes[0].args and {x.id for x in ast.walk(writes[0].args[0]) if isinstance(x, ast.Name)} & taint
+        ctx.ob("writer-api", save, writes[0] if writes else save.node, "%s: np.savez(filename, ...)" % save.qualname,
+               "the sketch file is written by exactly one np.savez call (zip container whose end record is written last)", bool(okk),
+               "" if okk else "%d np.savez calls on the file" % len(writes))
+        for n, d in others:
+            mut = any(d == m or d.startswith(m) for m in FILE_MUTATORS) or (isinstance(n.func, ast.Attribute) and n.func.attr in ("open", "write_bytes", "write_text", "writestr", "write", "touch", "rename", "replace", "unlink"))
+            ctx.ob("writer-api", save, n, "%s: %s" % (save.qualname, unparse(n, 60)),
+                   "nothing else opens or modifies the file save() wrote (anything appended after the zip end record makes a truncated copy loadable)",
+                   False if mut else None,
+                   ("`%s` re-opens/modifies the archive after np.savez" % d) if mut else "unknown use of the file name: %s" % d)
